@@ -3,6 +3,8 @@
 //   -DC14_PART=1 : same-type families for the ten standard integer types   (-DC14_ROWS=0 signed, 1 unsigned)
 //   -DC14_PART=2 : gcd/lcm over mixed type pairs (std::gcd/lcm accept any two integer types)
 //                  (-DC14_ROWS=0..3 : first type in {int8,int16} / {int32,int64} / {uint8,uint16} / {uint32,uint64})
+//   -DC14_PART=4 : character-like integer types (char, wchar_t, char8_t, char16_t, char32_t) for the families that accept them
+//   -DC14_PART=5 : ipow with exponents >= 2^31 (bases 0, 1, -1; plain flavour: the library loops exponent times)
 //   -DC14_PART=3 : bulk sweep (thorough tier, plain flavour): every pair of 16-bit values for add_sat/div_sat/midpoint/idiv,
 //                  every value x every 8th value for gcd/lcm
 #include "vf.hpp"
@@ -200,20 +202,43 @@ inline bool pow128(i128 b, unsigned e, i128 l, i128 h, i128& out)
     out = r;
     return true;
 }
+// exact power when representable.  |base| <= 1 has a closed form for every exponent >= 0; other bases are bounded by 200 steps
+constexpr i128 kBigExp = i128(1) << 20; // harness bound for bases 0, 1, -1 in the sanitizer units (the implementation loops exponent times)
+inline bool ipow_exact(i128 b, i128 e, i128 l, i128 h, i128 emax, i128& out)
+{
+    if (e < 0 || e > emax) { return false; }
+    if (b == 0) { out = e == 0 ? 1 : 0; return true; }
+    if (b == 1) { out = 1; return true; }
+    if (b == -1) {
+        if (l >= 0) { return false; } // unsigned: not representable
+        out = (e % 2) ? -1 : 1;
+        return true;
+    }
+    return e <= 200 && pow128(b, unsigned(e), l, h, out);
+}
 template <class T>
 std::vector<T> const& exponents()
 {
     static std::vector<T> const v = [] {
         std::vector<T> r;
         for (int e = 0; e <= 70; ++e) { r.push_back(T(e)); }
-        for (int e : {100, 127}) { r.push_back(T(e)); }
-        if (hi<T> >= 200) {
-            r.push_back(T(128));
-            r.push_back(T(200));
+        for (long e : {100L, 127L, 128L, 200L, 255L, 256L, 257L, 1000L, 1001L, 4095L, 4096L, 32767L, 32768L, 65535L, 65536L, 65537L, 1048575L, 1048576L}) {
+            if (hi<T> >= e) { r.push_back(T(e)); }
         }
         return finish_t(std::move(r));
     }();
     return v;
+}
+template <class T>
+char const* ipow_sit(T b, T e)
+{
+    bool big = i128(e) > 200;
+    if (e == 0) { return b == 0 ? "exp=0,base=0" : "exp=0"; }
+    if (b == 0) { return big ? "base=0,exp>200" : "base=0"; }
+    if (i128(b) == 1) { return big ? "base=1,exp>200" : "base=+-1"; }
+    if (i128(b) == -1) { return big ? ((e % 2) ? "base=-1,odd-exp>200" : "base=-1,even-exp>200") : "base=+-1"; }
+    if (i128(b) < 0) { return (e % 2) ? "base<0,odd-exp" : "base<0,even-exp"; }
+    return e == 1 ? "exp=1" : "generic";
 }
 template <class T>
 struct Ipow {
@@ -225,29 +250,77 @@ struct Ipow {
     static std::vector<T> const& yset() { return exponents<T>(); }
     static void rnd(vf::Rng& r, A& b, B& e)
     {
+        std::uint64_t m = r.next();
+        if ((m & 7) == 0) { // bases 0, 1, -1 with exponents of every magnitude up to the harness bound
+            b        = T(i128((m >> 8) % 3) - (std::is_signed_v<T> ? 1 : 0));
+            int len  = int((m >> 16) % 21);
+            i128 ev  = i128(r.next() >> (63 - len)) ;
+            e        = T(ev > hi<T> ? hi<T> : ev);
+            return;
+        }
         b = c14::rnd<T>(r);
-        e = T(r.below(r.coin() ? 8 : 71));
+        e = T(r.below((m & 8) ? 8 : 71));
     }
-    // exponent >= 0 (harness bound: <= 200), every intermediate product == base^k representable
+    // exponent >= 0 (harness bound: <= 200, <= 2^20 for bases 0/1/-1), every intermediate product == base^k representable
     static bool dom(T b, T e)
     {
         i128 out;
-        return i128(e) >= 0 && i128(e) <= 200 && pow128(i128(b), unsigned(e), lo<T>, hi<T>, out);
+        return ipow_exact(i128(b), i128(e), lo<T>, hi<T>, kBigExp, out);
     }
     static R ref(T b, T e)
     {
         i128 out = 0;
-        pow128(i128(b), unsigned(e), lo<T>, hi<T>, out);
+        ipow_exact(i128(b), i128(e), lo<T>, hi<T>, kBigExp, out);
+        return out;
+    }
+    static R impl(T b, T e) { return i128(etl::ipow(b, e)); }
+    static char const* sit(T b, T e) { return ipow_sit(b, e); }
+};
+// exponents >= 2^31 (plain -O2 unit only: the implementation loops exponent times, ~2 s per call): bases 0, 1, -1
+template <class T>
+std::vector<T> const& huge_exponents()
+{
+    static std::vector<T> const v = [] {
+        std::vector<T> r;
+        bool thorough = tier_hint() == vf::Tier::thorough;
+        r.push_back(T(i128(1) << 31));
+        r.push_back(T((i128(1) << 31) + 1));
+        if (thorough) {
+            if (W<T> == 32) { r.push_back(T((i128(1) << 32) - 1)); }
+            if (W<T> == 64) {
+                r.push_back(T(i128(1) << 32));
+                r.push_back(T((i128(1) << 32) + 1));
+            }
+        }
+        return finish_t(std::move(r));
+    }();
+    return v;
+}
+template <class T>
+struct IpowHuge {
+    using A = T;
+    using B = T;
+    using R = i128;
+    static constexpr char const* name = "ipow(base,exponent)";
+    static std::string subject() { return sub1<T>("ipow"); }
+    static std::vector<T> const& yset() { return huge_exponents<T>(); }
+    static bool dom(T b, T e)
+    {
+        i128 out;
+        return (b == 0 || i128(b) == 1 || i128(b) == -1) && i128(e) > kBigExp && ipow_exact(i128(b), i128(e), lo<T>, hi<T>, hi<T>, out);
+    }
+    static R ref(T b, T e)
+    {
+        i128 out = 0;
+        ipow_exact(i128(b), i128(e), lo<T>, hi<T>, hi<T>, out);
         return out;
     }
     static R impl(T b, T e) { return i128(etl::ipow(b, e)); }
     static char const* sit(T b, T e)
     {
-        if (e == 0) { return b == 0 ? "exp=0,base=0" : "exp=0"; }
-        if (b == 0) { return "base=0"; }
-        if (i128(b) == 1 || i128(b) == -1) { return "base=+-1"; }
-        if (i128(b) < 0) { return (e % 2) ? "base<0,odd-exp" : "base<0,even-exp"; }
-        return e == 1 ? "exp=1" : "generic";
+        if (b == 0) { return "base=0,exp>=2^31"; }
+        if (i128(b) == 1) { return "base=1,exp>=2^31"; }
+        return (e % 2) ? "base=-1,odd-exp>=2^31" : "base=-1,even-exp>=2^31";
     }
 };
 // compile-time base: ipow<Base>(exponent); Base == 2 is a shift
@@ -371,7 +444,11 @@ void reg_row()
 }
 #endif
 
+#if C14_PART == 5
+vf::Spec spec(vf::Tier t) { return make_spec(t, 0, 0, 1); } // one slow call group per forked batch
+#else
 vf::Spec spec(vf::Tier t) { return make_spec(t, 2, 64); }
+#endif
 } // namespace
 
 void c14::register_all()
@@ -406,6 +483,36 @@ void c14::register_all()
     bulk(static_cast<unsigned short>(0));
     reg_binary<AllY<Gcd<short, unsigned short>, 16>>(false, 3, "all16-x-every-16th");
     reg_binary<AllY<Lcm<unsigned short, short>, 16>>(false, 3, "all16-x-every-16th");
+#elif C14_PART == 4
+    // character-like integer types: the families that accept any integral type (the saturating ops and cmp_* reject them, like std)
+    auto exotic = []<class T>(T) {
+        reg_binary<Midpoint<T>>();
+        reg_binary<Idiv<T>>();
+        reg_binary<Gcd<T, T>>();
+        reg_binary<Lcm<T, T>>();
+        reg_binary<Ipow<T>>();
+        reg_unary<Ilog2<T>>();
+        reg_unary<Abs<T>>();
+        if constexpr (std::is_signed_v<T>) { reg_unary<AbsT<T>>(); }
+    };
+    exotic(char{});
+    exotic(wchar_t{});
+    exotic(char8_t{});
+    exotic(char16_t{});
+    exotic(char32_t{});
+    reg_binary<Gcd<wchar_t, unsigned short>>();
+    reg_binary<Gcd<char16_t, long>>();
+    reg_binary<Lcm<char, char32_t>>();
+#elif C14_PART == 5
+    // exponents >= 2^31 with bases 0, 1, -1: one block (2-3 calls of ~2 s each) per exponent
+    max_block() = 1;
+    reg_binary<IpowHuge<unsigned>>(false, 0, "structured-x-huge-exponent");
+    reg_binary<IpowHuge<long>>(false, 0, "structured-x-huge-exponent");
+    reg_binary<IpowHuge<unsigned long>>(false, 0, "structured-x-huge-exponent");
+    if (tier_hint() == vf::Tier::thorough) {
+        reg_binary<IpowHuge<long long>>(false, 0, "structured-x-huge-exponent");
+        reg_binary<IpowHuge<unsigned long long>>(false, 0, "structured-x-huge-exponent");
+    }
 #elif C14_PART == 1
     reg_type<unsigned char>();
     reg_type<unsigned short>();
@@ -441,6 +548,10 @@ void c14::register_all()
 VF_MAIN("C14", "C14_arith_" C14_STR(C14_ROWS), spec, c14::run_case)
 #elif C14_PART == 3
 VF_MAIN("C14", "C14_arith_bulk", spec, c14::run_case)
+#elif C14_PART == 4
+VF_MAIN("C14", "C14_arith_chars", spec, c14::run_case)
+#elif C14_PART == 5
+VF_MAIN("C14", "C14_ipow_huge", spec, c14::run_case)
 #else
 VF_MAIN("C14", "C14_gcdmix_" C14_STR(C14_ROWS), spec, c14::run_case)
 #endif
